@@ -2,6 +2,7 @@ import DspVerif.Props.C14
 import DspVerif.Props.C06Gen
 import DspVerif.Gen.StepsTuner
 import DspVerif.Gen.CtorTuner
+import DspVerif.Gen.CtorDelay
 /-!
 # C14 — bridge: the hand-written `Tuner` model IS the regenerated loop body of `Tuner::process`
 
@@ -324,5 +325,141 @@ theorem gen_hfProcess_eq (s : HfState ℝ) (x : Array ℝ) (hf : 1 ≤ s.fir.h.s
     simp [Array.getD_eq_getD_getElem?, show j < A.size by omega, show j < B.size by omega]
 
 end hilbertFilter
+
+/-! BEGIN steps3 constructors -/
+/-! ## Constructors of `Delay<T>` and `HilbertFilter` (regenerated: `Gen/CtorDelay.lean`, `Gen/CtorFir.lean`)
+
+`Delay(int length)` (`_buffer(length)`: zero-filled), `Delay(const base_array<T>& initial)` (`_buffer(initial)`);
+`HilbertFilter(const arr_real& h)`: `_fir(h)` (the GENERATED `FirFilter<real_t>` constructor), `_d{h.size() / 2}` (the GENERATED
+`Delay<real_t>(int)` constructor, C `/`), then `DSPLIB_ASSERT(firtype(h) == FirType::EvenAntiSym)` with `firtype` a parameter and the
+enumerator value regenerated; `HilbertFilter(int flen, real_t tw)` delegates to it with `real_hilbert(design_fir(flen, 1.0, tw))`,
+`real_hilbert` = `imag(h) * 2` translated (`imag(const arr_cmplx&)` of lib/math.cpp translated, `arr_real * int` pinned),
+`design_fir` a parameter. -/
+
+noncomputable section
+
+/-- **bridge, `Delay<real_t>(int length)`**, `length ≥ 0` -/
+theorem delayRCtorLen_eq (n : ℕ) : (Gen.delayRCtorLen (n : Int) : Gen.DelayRState ℝ) = ⟨(delayInit (0 : ℝ) n).buf⟩ := by
+  simp [Gen.delayRCtorLen, delayInit, Gen.arrNew, Gen.zeroR]
+
+/-- **bridge, `Delay<real_t>(const arr_real& initial)`** -/
+theorem delayRCtorInit_eq (a : Array ℝ) : (Gen.delayRCtorInit a : Gen.DelayRState ℝ) = ⟨(delayInitWith a).buf⟩ := rfl
+
+/-- **bridge, `Delay<cmplx_t>(int length)`** -/
+theorem delayCCtorLen_eq (n : ℕ) : (Gen.delayCCtorLen (n : Int) : Gen.DelayCState ℝ) = ⟨(delayInit (0 : Cx ℝ) n).buf⟩ := by
+  simp [Gen.delayCCtorLen, delayInit, Gen.arrNew, C07Gen.gzeroC_eq]
+
+/-- **bridge, `Delay<cmplx_t>(const arr_cmplx& initial)`** -/
+theorem delayCCtorInit_eq (a : Array (Cx ℝ)) : (Gen.delayCCtorInit a : Gen.DelayCState ℝ) = ⟨(delayInitWith a).buf⟩ := rfl
+
+/-- `Delay(0)` is constructed (and its first `process` throws: `gen_delayProcessE_zero`); a negative length gives the same empty buffer
+here, where C++ throws `std::length_error` -/
+theorem delayRCtorLen_nonpos (n : Int) (hn : n ≤ 0) : (Gen.delayRCtorLen n : Gen.DelayRState ℝ) = ⟨#[]⟩ := by
+  have : n.toNat = 0 := by omega
+  simp [Gen.delayRCtorLen, Gen.arrNew, this]
+
+/-- `imag(const arr_cmplx&)` of lib/math.cpp (generated) is the element-wise imaginary part -/
+theorem imagArr_eq (x : Array (Cx ℝ)) : Gen.imagArr x = x.map (fun z => z.im) := by
+  unfold Gen.imagArr
+  simp only [Gen.arrNew, Gen.arrSize, Int.ofNat_eq_natCast, Int.toNat_natCast]
+  have key := GenBridge.foldl_set_eq_ofFn (0 : ℝ) (fun (_ : ℝ) (k : Nat) => (x.getD k Gen.zeroC).im) x.size
+    (Array.replicate x.size Gen.zeroR) (by simp)
+  have hf : (Gen.imagArr_loop1 x : Array ℝ → Nat → Array ℝ) = fun a i => a.setIfInBounds i (x.getD i Gen.zeroC).im := by
+    funext a i
+    simp only [Gen.imagArr_loop1, Int.ofNat_eq_natCast, GenBridge.arrSet_natCast, GenBridge.arrGet_natCast]
+  rw [hf]
+  refine key.trans ?_
+  apply Array.ext
+  · simp
+  · intro i h1 h2
+    simp only [Array.size_ofFn] at h1
+    simp
+
+/-- `real_hilbert` of lib/hilbert.cpp (generated) is the model's `realHilbert` -/
+theorem hilbertRealHilbert_eq (hh : Array (Cx ℝ)) : Gen.hilbertRealHilbert hh = realHilbert hh := by
+  unfold Gen.hilbertRealHilbert Gen.arrMulRI realHilbert
+  rw [imagArr_eq]
+  simp [Array.map_map, Function.comp_def]
+
+/-- `firtype` as the generated constructor takes it: the model's `Window.firtype` with its value as an `int` -/
+def firtypeI (a : Array ℝ) : Int := (Window.firtype a.toList : Int)
+
+/-- the generated state of the model's `HilbertFilter` state -/
+def toGenHf (s : HfState ℝ) : Gen.HilbertFilterState ℝ := ⟨⟨s.fir.h, s.fir.d⟩, ⟨s.d.buf⟩⟩
+
+/-- **bridge, `HilbertFilter(const arr_real& h)`:** for EVERY tap vector the generated constructor (with the generated sub-object
+constructors and the regenerated enumerator value `FirType::EvenAntiSym`) accepts exactly when `hfInit` does — same message — and
+leaves the same object -/
+theorem hilbertCtorTaps_eq (h : Array ℝ) : Gen.hilbertCtorTaps firtypeI h = (hfInit h).map toGenHf := by
+  unfold Gen.hilbertCtorTaps hfInit firtypeI
+  have h3 : ((Window.firtype h.toList : Int) = Gen.FirType_EvenAntiSym) ↔ Window.firtype h.toList = 3 := by
+    unfold Gen.FirType_EvenAntiSym; omega
+  by_cases hc : Window.firtype h.toList = 3
+  · have hd : (Int.tdiv (h.size : Int) 2) = ((h.size / 2 : ℕ) : Int) := by
+      rw [Int.tdiv_eq_ediv_of_nonneg (by omega)]; simp
+    have hc' : ((Window.firtype h.toList : Int) = Gen.FirType_EvenAntiSym) := h3.mpr hc
+    rw [if_pos hc]
+    simp only [hc', not_true_eq_false, if_false, Except.map, toGenHf, C07Gen.firRCtor_eq, C07Gen.toGenR, Gen.arrSize, Int.ofNat_eq_natCast, hd, delayRCtorLen_eq]
+    simp [Fir.firInitR, Cx.zeroR_eq]
+  · have hc' : ¬ ((Window.firtype h.toList : Int) = Gen.FirType_EvenAntiSym) := fun e => hc (h3.mp e)
+    have hc'' : ¬ (Gen.FirType_EvenAntiSym = (Window.firtype h.toList : Int)) := fun e => hc' e.symm
+    rw [if_neg hc]
+    simp [hc', hc'', Except.map]
+
+/-- **bridge, `HilbertFilter(int flen, real_t tw)`:** with any `design_fir` the generated delegating constructor is the model's
+composition `hfInit ∘ realHilbert ∘ design_fir(flen, 1.0, tw)` -/
+theorem hilbertCtorDesign_eq (designFir : Int → ℝ → ℝ → Except String (Array (Cx ℝ))) (flen : Int) (tw : ℝ) :
+    Gen.hilbertCtorDesign firtypeI designFir flen tw =
+      match designFir flen 1 tw with
+      | .error e => .error e
+      | .ok hh => (hfInit (realHilbert hh)).map toGenHf := by
+  unfold Gen.hilbertCtorDesign
+  simp only [fn_ofInt, Int.cast_one]
+  cases designFir flen 1 tw with
+  | error e => rfl
+  | ok hh => simp only [hilbertRealHilbert_eq, hilbertCtorTaps_eq]
+
+/-- **T14.4 from the GENERATED constructor through the GENERATED `process`.**  For every tap vector the regenerated constructor
+accepts (then `M = len h` is odd and `≥ 3`) and every frame: the regenerated `HilbertFilter::process` returns as many outputs as inputs,
+output `k` with real part `x[k - M/2]` (0 while `k < M/2`) and imaginary part `Σ_{j ≤ k} h[j]·x[k-j]`. -/
+theorem hilbert_gen_from_ctor (h : Array ℝ) (o : Gen.HilbertFilterState ℝ) (ho : Gen.hilbertCtorTaps firtypeI h = .ok o)
+    (x : Array ℝ) :
+    ∃ st y, Gen.hilbertProcess o x = .ok (st, y) ∧ y.size = x.size ∧
+      ∀ k, k < x.size →
+        (y.getD k 0).re = (if k < h.size / 2 then 0 else x.getD (k - h.size / 2) 0) ∧
+        (y.getD k 0).im = ∑ j ∈ Finset.range h.size, if j ≤ k then h.getD j 0 * x.getD (k - j) 0 else 0 := by
+  rw [hilbertCtorTaps_eq] at ho
+  cases hs : hfInit h with
+  | error e => rw [hs] at ho; exact absurd ho (by simp [Except.map])
+  | ok s0 =>
+    rw [hs] at ho
+    have hoe : o = toGenHf s0 := by
+      simp only [Except.map] at ho
+      injection ho with ho; exact ho.symm
+    obtain ⟨hs0, _, h3⟩ := C14.hfInit_ok h s0 hs
+    have e := gen_hfProcess_eq s0 x (by rw [hs0]; simp [Fir.firInitR, Fir.init]; omega)
+      (by rw [hs0]; simp [Fir.firInitR, Fir.init]) (by rw [hs0]; simp [delayInit]; omega)
+    have key := C14.hf_eq h s0 hs [x]
+    simp only [C14.runFrames, C14.flatten, Array.append_empty] at key
+    rw [hoe]
+    exact ⟨_, _, e, key.1, key.2⟩
+
+/-- the regenerated value of `FirType::EvenAntiSym` and the default arguments `HilbertFilter(int flen = 51, real_t tw = 0.01)` -/
+theorem hilbert_ctor_consts :
+    Gen.FirType_EvenAntiSym = 3 ∧ (Gen.hilbertCtorDesignDefault_flen, (Gen.hilbertCtorDesignDefault_tw : ℝ)) = (51, 1 / 100) := by
+  simp [Gen.FirType_EvenAntiSym, Gen.hilbertCtorDesignDefault_flen, Gen.hilbertCtorDesignDefault_tw]
+
+/-- non-vacuity: the antisymmetric taps `[1, 0, -1]` are accepted by the generated constructor -/
+example : ∃ o, Gen.hilbertCtorTaps firtypeI (#[1, 0, -1] : Array ℝ) = .ok o := by
+  rw [hilbertCtorTaps_eq]
+  have : Window.firtype ((#[1, 0, -1] : Array ℝ).toList) = 3 := by
+    simp [Window.firtype, Window.isSymmetric, Window.isAntisymmetric, Window.equal, Window.eps]
+    norm_num
+  unfold hfInit
+  rw [if_pos this]
+  exact ⟨_, rfl⟩
+
+end
+/-! END steps3 constructors -/
 
 end Dsp.C14Gen
